@@ -543,8 +543,7 @@ class XsdAttributeGroup(
                     msg = _("Attribute type is not a restriction of the base attribute type")
                     self.parse_error(msg)
 
-                if base_attr.use != 'optional' and attr.use == 'optional' or \
-                        base_attr.use == 'required' and attr.use != 'required':
+                if base_attr.use != 'optional' and attr.use != base_attr.use:
                     msg = _("Attribute {!r}: unmatched attribute use in restriction")
                     self.parse_error(msg.format(name))
 
